@@ -14,8 +14,13 @@ MC          : OrderLaws_MC — a hash set and a sorted list fed with the objects
 spec -> code: OrderLaws_Export enumerates universes ("stars": a base object, every one-attribute
               variant incl. respellings 1.0/1.00/1.0-r0/01.0, _alpha/_alpha0, -r1/-r01, reversed USE
               deps, !/!!, slot, sub-slot, slot operator, repo, USE, negate_vers; thorough: also
-              two-attribute variants over many bases); the driver builds the real objects and
-              observes ALL ordered pairs, sorted(), set(), dict lookups.
+              two-attribute variants over many bases) and "name universes" (every category x
+              package combination as CPVs and atoms, every slot x sub-slot x repo combination)
+              over a name family in which one name is a prefix of another continued by a
+              character sorting below / above the separators "/", ":", "-" (cat, cat-x, cat+x,
+              cat.x, cat0 ...), so that an operator comparing a concatenated string disagrees with
+              one comparing the components; the driver builds the real objects and observes ALL
+              ordered pairs, sorted(), set(), dict lookups.
 code -> spec: seeded random groups of CPVs / atoms (random PMS versions of the C01 generator and
               their mutations, random attributes) observed the same way.
 Judge       : OrderLaws_Trace (clauses Eq_ne, Eq_hash, Eq_not_lt, Eq_not_gt, Neq_ordered, Le_def,
@@ -34,11 +39,14 @@ from pylib.common import rng, use_repo
 
 from drivers.c01_version import gen_version, mutate, render
 
-CATS = {1: "cat", 2: "dog", 3: "eel"}
-PKGS = {1: "pkg", 2: "qux", 3: "rat"}
-SLOTS = {1: "0", 2: "1"}
-SUBS = {1: "1.1", 2: "2"}
-REPOS = {1: "gentoo", 2: "overlay"}
+# Name family (see OrderLaws_Univ): a plain name, an unrelated one, and the plain name continued by
+# characters sorting below ("+", "-", ".") and above ("0") the separators "/", ":", "-", so that
+# comparing a concatenated string ("cat/pkg", cpvstr, "slot/subslot") differs from comparing the parts.
+CATS = {1: "cat", 2: "dog", 3: "cat-x", 4: "cat+x", 5: "cat.x", 6: "cat0"}
+PKGS = {1: "pkg", 2: "qux", 3: "pkg-x", 4: "pkg+", 5: "pkg0"}
+SLOTS = {1: "0", 2: "1", 3: "0.1"}
+SUBS = {1: "1.1", 2: "2", 3: "1.1-a"}
+REPOS = {1: "gentoo", 2: "overlay", 3: "gentoo-x"}
 USES = {1: ["x"], 2: ["-x"], 3: ["x", "y"], 4: ["x", "-y"], 5: ["x?", "!y=", "z(+)"]}
 OPS = {0: "", 1: "=", 2: "~", 3: ">=", 4: "<", 5: "=*"}
 BLOCKS = {0: "", 1: "!", 2: "!!"}
@@ -131,15 +139,15 @@ def observe(objs):
 
 # ---------------------------------------------------------------- random groups (code -> spec)
 def rand_thing(r, fam):
-    t = dict(fam=fam, blocks=0, op=1 if fam == 1 else r.choice([0, 1, 1, 2, 3, 4, 5]), cat=r.randint(1, 2), pkg=r.randint(1, 2),
+    t = dict(fam=fam, blocks=0, op=1 if fam == 1 else r.choice([0, 1, 1, 2, 3, 4, 5]), cat=r.choice(list(CATS)), pkg=r.choice(list(PKGS)),
              slot=0, sub=0, sop=0, repo=0, use=0, perm=0, neg=0)
     t["ver"] = gen_version(r)
     if fam == 2:
         t["blocks"] = r.choice([0, 0, 1, 2])
-        t["slot"] = r.choice([0, 0, 1, 2])
-        t["sub"] = r.choice([0, 1, 2]) if t["slot"] else 0
+        t["slot"] = r.choice([0, 0, 1, 2, 3])
+        t["sub"] = r.choice([0, 1, 2, 3]) if t["slot"] else 0
         t["sop"] = r.choice([0, 0, 1]) if t["slot"] else r.choice([0, 0, 1, 2])
-        t["repo"] = r.choice([0, 0, 1, 2])
+        t["repo"] = r.choice([0, 0, 1, 2, 3])
         t["use"] = r.choice([0, 0, 1, 2, 3, 4, 5])
         t["perm"] = r.randint(0, 1) if t["use"] >= 3 else 0
         t["neg"] = r.choice([0, 0, 0, 1]) if t["op"] else 0
@@ -169,12 +177,14 @@ def mutate_thing(r, t):
     if f == "ver":
         w["ver"] = mutate(r, t["ver"])
     elif f in ("cat", "pkg"):
-        w[f] = 3 - t[f]
+        w[f] = r.choice([x for x in (CATS if f == "cat" else PKGS) if x != t[f]])
     elif f == "blocks":
         w[f] = r.choice([x for x in (0, 1, 2) if x != t[f]])
     elif f == "op":
         w[f] = r.choice([x for x in range(6) if x != t[f]])
-    elif f in ("slot", "sub", "sop", "repo"):
+    elif f in ("slot", "sub", "repo"):
+        w[f] = r.choice([x for x in (0, 1, 2, 3) if x != t[f]])
+    elif f == "sop":
         w[f] = r.choice([x for x in (0, 1, 2) if x != t[f]])
     elif f == "use":
         w[f] = r.choice([x for x in range(6) if x != t[f]])
